@@ -42,9 +42,9 @@ def kindStr : Kind → String
   | .ginput => "ginput" | .goutput => "goutput"
 
 def devStr (w : World) (i : Nat) (d : Dev) : String :=
-  let up := match d.lastRestore with
+  let up := if d.kind != .processor then 0 else match d.lastRestore with
     | none => d.uptime | some t => d.uptime + (w.now - t)
-  let use := match d.lastUseStart with
+  let use := if d.kind != .processor then 0 else match d.lastUseStart with
     | none => d.timeInUse | some t => d.timeInUse + (w.now - t)
   let resv := match d.reserved with
     | none => "-" | some id => "[" ++ reqStr ((w.rm.held id).getD []) ++ "]"
